@@ -51,6 +51,21 @@ pub struct Input {
     /// size of a stale file already sitting at the output path (0 = none);
     /// the command is then run with --force
     pub stale_output: usize,
+    /// indices of input files that appear once more at the end of the input
+    /// list (the same file named twice: its rows count twice); odd positions
+    /// spell the path differently (`dir/./name`)
+    pub listed_twice: Vec<usize>,
+    /// per file: the path is a FIFO fed by another thread instead of a
+    /// regular file (missing entries mean no). Not used for a file that is
+    /// listed twice, nor in invocations that starve file descriptors (the
+    /// feeding thread lives in the same process).
+    pub fifo: Vec<bool>,
+}
+
+/// A thread that feeds one FIFO input.
+pub struct Feeder {
+    path: PathBuf,
+    handle: Option<std::thread::JoinHandle<()>>,
 }
 
 #[derive(Clone, Debug, PartialEq, Eq)]
@@ -105,7 +120,8 @@ impl Input {
     /// configured merge over ALL values given for the key.
     pub fn model(&self) -> BTreeMap<Vec<u8>, u64> {
         let mut m: BTreeMap<Vec<u8>, u64> = BTreeMap::new();
-        for f in &self.files {
+        let again: Vec<&Vec<(String, u64)>> = self.listed_twice.iter().filter_map(|i| self.files.get(*i)).collect();
+        for f in self.files.iter().chain(again.into_iter()) {
             for (k, v) in f {
                 let v = if self.mode == Mode::Set { 0 } else { *v };
                 m.entry(k.as_bytes().to_vec())
@@ -124,31 +140,91 @@ impl Input {
     }
 
     pub fn has_repeats(&self) -> bool {
-        self.model().len() != self.rows()
+        self.model().len() != self.rows() || self.listed_twice.iter().any(|i| self.files.get(*i).map_or(false, |f| !f.is_empty()))
+    }
+
+    fn content(&self, i: usize) -> String {
+        let f = &self.files[i];
+        let mut s = String::new();
+        for (k, v) in f {
+            if self.mode == Mode::Set {
+                s.push_str(k);
+                s.push('\n');
+            } else {
+                s.push_str(&format!("{},{}\n", k, v));
+            }
+        }
+        // (a blank last line needs its newline to be a line at all)
+        let blank_last = self.mode == Mode::Set && f.last().map(|(k, _)| k.is_empty()).unwrap_or(false);
+        if !self.trailing_newline.get(i).copied().unwrap_or(true) && s.ends_with('\n') && !blank_last {
+            s.pop();
+        }
+        s
     }
 
     fn write_files(&self, dir: &Path) -> Vec<PathBuf> {
+        self.write_inputs(dir, false).0
+    }
+
+    /// Input paths in command-line order, and the threads feeding FIFOs.
+    fn write_inputs(&self, dir: &Path, allow_fifo: bool) -> (Vec<PathBuf>, Vec<Feeder>) {
         let mut out = Vec::new();
-        for (i, f) in self.files.iter().enumerate() {
+        let mut feeders = Vec::new();
+        for i in 0..self.files.len() {
             let p = dir.join(format!("in{}.txt", i));
-            let mut s = String::new();
-            for (k, v) in f {
-                if self.mode == Mode::Set {
-                    s.push_str(k);
-                    s.push('\n');
-                } else {
-                    s.push_str(&format!("{},{}\n", k, v));
-                }
+            let s = self.content(i);
+            let fifo = allow_fifo && self.fifo.get(i).copied().unwrap_or(false) && !self.listed_twice.contains(&i);
+            if fifo {
+                let c = std::ffi::CString::new(p.to_string_lossy().as_bytes()).expect("harness: path");
+                let rc = unsafe { libc::mkfifo(c.as_ptr(), 0o600) };
+                assert!(rc == 0, "harness: mkfifo");
+                let p2 = p.clone();
+                let handle = std::thread::spawn(move || {
+                    use std::io::Write;
+                    // blocks until the command (or the release below) opens
+                    // the other end
+                    if let Ok(mut f) = std::fs::OpenOptions::new().write(true).open(&p2) {
+                        let _ = f.write_all(s.as_bytes());
+                    }
+                });
+                feeders.push(Feeder { path: p.clone(), handle: Some(handle) });
+            } else {
+                std::fs::write(&p, s).expect("harness: write input file");
             }
-            // (a blank last line needs its newline to be a line at all)
-            let blank_last = self.mode == Mode::Set && f.last().map(|(k, _)| k.is_empty()).unwrap_or(false);
-            if !self.trailing_newline.get(i).copied().unwrap_or(true) && s.ends_with('\n') && !blank_last {
-                s.pop();
-            }
-            std::fs::write(&p, s).expect("harness: write input file");
             out.push(p);
         }
-        out
+        for (j, i) in self.listed_twice.iter().enumerate() {
+            if *i < self.files.len() {
+                out.push(if j % 2 == 1 { dir.join(".").join(format!("in{}.txt", i)) } else { dir.join(format!("in{}.txt", i)) });
+            }
+        }
+        (out, feeders)
+    }
+}
+
+impl Feeder {
+    /// Let go of a feeder whose FIFO nobody opened (or a reader stuck in a
+    /// second open of it), then wait for the thread.
+    fn release(&mut self) {
+        use std::os::unix::fs::OpenOptionsExt;
+        if let Some(h) = self.handle.take() {
+            if !h.is_finished() {
+                // A reader end held open lets the writer's open() through
+                // whenever the thread gets there (it may not even have
+                // started yet), and takes what it writes.
+                let r = std::fs::OpenOptions::new().read(true).custom_flags(libc::O_NONBLOCK).open(&self.path);
+                let t0 = std::time::Instant::now();
+                while !h.is_finished() && t0.elapsed().as_secs() < 30 {
+                    std::thread::sleep(std::time::Duration::from_millis(1));
+                }
+                drop(r);
+                if !h.is_finished() {
+                    // give up on the thread rather than hang the check
+                    return;
+                }
+            }
+            let _ = h.join();
+        }
     }
 }
 
@@ -266,7 +342,39 @@ fn starve_fds(headroom: u32) -> Option<libc::rlimit> {
 pub fn invoke(input: &Input, cfg: &RunCfg, dir: &Path) -> Invocation {
     let _ = std::fs::remove_dir_all(dir);
     std::fs::create_dir_all(dir.join("tmp")).expect("harness: create run dir");
-    let inputs = input.write_files(dir);
+    let (inputs, mut feeders) = input.write_inputs(dir, cfg.fd_headroom.is_none());
+    // If the command got stuck on a FIFO (it opened one twice, say), nothing
+    // in the simulation can move: a watchdog lets the stuck open through
+    // after a generous wall-clock delay. It only ever acts on a hang.
+    let done = Arc::new(std::sync::atomic::AtomicBool::new(false));
+    let watchdog = if feeders.is_empty() {
+        None
+    } else {
+        let done = done.clone();
+        let paths: Vec<PathBuf> = feeders.iter().map(|f| f.path.clone()).collect();
+        Some(std::thread::spawn(move || {
+            use std::os::unix::fs::OpenOptionsExt;
+            let t0 = std::time::Instant::now();
+            while !done.load(Ordering::SeqCst) {
+                std::thread::sleep(std::time::Duration::from_millis(5));
+                if t0.elapsed().as_secs() >= 20 {
+                    for _ in 0..50 {
+                        for p in &paths {
+                            let w = std::fs::OpenOptions::new().write(true).custom_flags(libc::O_NONBLOCK).open(p);
+                            let r = std::fs::OpenOptions::new().read(true).custom_flags(libc::O_NONBLOCK).open(p);
+                            std::thread::sleep(std::time::Duration::from_millis(2));
+                            drop(w);
+                            drop(r);
+                        }
+                        if done.load(Ordering::SeqCst) {
+                            break;
+                        }
+                    }
+                    break;
+                }
+            }
+        }))
+    };
     let out = dir.join("out.fst");
     if input.stale_output > 0 {
         // something longer than any FST these inputs can produce
@@ -309,6 +417,13 @@ pub fn invoke(input: &Input, cfg: &RunCfg, dir: &Path) -> Invocation {
             *r2.lock().unwrap() = Some(r);
         });
     }));
+    done.store(true, Ordering::SeqCst);
+    for f in feeders.iter_mut() {
+        f.release();
+    }
+    if let Some(w) = watchdog {
+        let _ = w.join();
+    }
     if let Some(p) = FD_PLAN.lock().unwrap().take() {
         if p.saved.is_some() {
             saved = p.saved;
@@ -371,6 +486,8 @@ pub fn sorted_build(input: &Input, dir: &Path) -> Result<Vec<u8>, String> {
         mode: input.mode,
         trailing_newline: vec![],
         stale_output: 0,
+        listed_twice: vec![],
+        fifo: vec![],
         files: vec![model
             .iter()
             .map(|(k, v)| (String::from_utf8_lossy(k).to_string(), *v))
